@@ -11,7 +11,8 @@ From Coq Require Import List NArith Bool.
 Import ListNotations.
 Require Import Celma.Common.Res Celma.FixedStr.FsBase Celma.FixedStr.FsModel
   Celma.FixedStr.FsSafe Celma.FixedStr.FsSafeAll Celma.FixedStr.FsStd Celma.FixedStr.FsRefine
-  Celma.FixedStr.FsRefine3 Celma.FixedStr.FsRefine4 Celma.FixedStr.FsPinned Celma.FixedStr.FsIter.
+  Celma.FixedStr.FsRefine3 Celma.FixedStr.FsRefine4 Celma.FixedStr.FsRefine5 Celma.FixedStr.FsRefine6 Celma.FixedStr.FsRefine7
+  Celma.FixedStr.FsPinned Celma.FixedStr.FsIter.
 Local Open Scope N_scope.
 
 (** Every modifying operation (all 40 modelled entry points: constructors and
@@ -28,22 +29,53 @@ Theorem C11_mutators_refine :
 Proof. intros L s o x cs' cos' rs H Hs Ho HB HC Hm. exact (mut_refines L H s o x Hs Ho HB HC Hm cs' cos' rs). Qed.
 Print Assumptions C11_mutators_refine.
 
-(** Observers with a proof: the three compare implementations (9 overloads),
-    starts_with (4 overloads), substr, copy, at / front / back / length / empty /
-    str, operator== and operator!=, and the traversal begin()..end() /
-    rbegin()..rend() return exactly what std::string returns on the same
-    text, and change nothing.
-    Full statement (property C11) also covers ends_with, contains, the 30
-    overloads of the find family and single iterator steps (--, +=, -=): for
-    those the model is tied to std::string by the correspondence check only
-    (exhaustive small scopes), hence the name. *)
-Theorem C11_observers_refine_partial :
+(** Every observing operation (all 49 modelled entry points: the 9 compare
+    overloads, starts_with / ends_with / contains (4 overloads each), substr,
+    copy, at / front / back / length / empty / str, operator== and operator!=,
+    the traversals begin()..end() and rbegin()..rend(), single steps ++ / -- /
+    += / -= of the iterator and reverse iterator classes followed by operator*,
+    and the 30 overloads of find, rfind, find_first_of, find_first_not_of,
+    find_last_of, find_last_not_of), for every capacity, every well-formed pair
+    of objects and every argument inside the domain: the operation returns
+    exactly what std::string returns on the same text, and changes nothing.
+    [CstrsOk]: C string arguments end at their terminator.  [FindOk]: for the
+    strchr() based overloads of the four character-class searches (FixedString /
+    std::string / C string needle) the text and the character set hold no NUL
+    character; find, rfind, the (pointer, count) and the single-character
+    overloads need no such restriction. *)
+Theorem C11_observers_refine :
   forall L s o x cs' cos' rs,
-    CapOk L -> Inv L s -> Inv L o -> Bounded x -> CstrsOk x -> is_proved_obs x = true ->
+    CapOk L -> Inv L s -> Inv L o -> Bounded x -> CstrsOk x -> FindOk s o x -> is_mutator x = false ->
     std_step (abs s) (abs o) x = Some (cs', cos', rs) ->
     step L s o x = Ok (s, o, rs) /\ cs' = abs s /\ cos' = abs o.
-Proof. intros L s o x cs' cos' rs H Hs Ho HB HC Hm. exact (obs_refines L H s o x Hs Ho HB HC Hm cs' cos' rs). Qed.
-Print Assumptions C11_observers_refine_partial.
+Proof. intros L s o x cs' cos' rs H Hs Ho HB HC HF Hm. exact (obs_all_refines L H s o x Hs Ho HB HC HF Hm cs' cos' rs). Qed.
+Print Assumptions C11_observers_refine.
+
+(** All 89 operations in one statement. *)
+Theorem C11_step_refines :
+  forall L s o x cs' cos' rs,
+    CapOk L -> Inv L s -> Inv L o -> Bounded x -> CstrsOk x -> FindOk s o x ->
+    std_step (abs s) (abs o) x = Some (cs', cos', rs) ->
+    exists s' o' r, step L s o x = Ok (s', o', r) /\ abs s' = cut L cs' /\ abs o' = cut L cos' /\
+                    (is_mutator x = false -> r = rs /\ s' = s /\ o' = o).
+Proof. intros L s o x cs' cos' rs H Hs Ho HB HC HF. exact (step_refines L H s o x Hs Ho HB HC HF cs' cos' rs). Qed.
+Print Assumptions C11_step_refines.
+
+(** Histories.  [run_D] applies a list of operations to a pair of objects,
+    [std_run] applies it to a pair of std::string texts, cutting at L after every
+    step; both skip the steps outside the domain ([in_dom]: the boolean form of
+    "std_step is defined, C string arguments end at their terminator, no NUL in
+    text / character set for the strchr() based searches").  From any well-formed
+    pair of objects and for any list of operations with size_t arguments the two
+    runs end with the same texts and report the same observed values; the run on
+    the objects never faults and keeps them well-formed. *)
+Theorem C11_history_refines :
+  forall L ops s o,
+    CapOk L -> Inv L s -> Inv L o -> Forall Bounded ops ->
+    exists s' o' vs, run_D L s o ops = Ok (s', o', vs) /\ Inv L s' /\ Inv L o' /\
+                     std_run L (abs s) (abs o) ops = (abs s', abs o', vs).
+Proof. intros L ops s o H. exact (history_refines L H ops s o). Qed.
+Print Assumptions C11_history_refines.
 
 (** Iteration in both directions visits the text / the reversed text. *)
 Theorem C11_iteration_forward :
@@ -102,15 +134,24 @@ Theorem C11_compare_pinned_refuted :
 Proof. vm_compute. repeat split. Qed.
 Print Assumptions C11_compare_pinned_refuted.
 
+(** rfind( '\0') of the tree before fixes/C11-4 starts at the terminator and returns length() *)
+Theorem C11_rfind_char_pinned_refuted :
+  rfind_ch_pinned 10 (fs10 [97;98;99]) 0 NPOS = Ok 3 /\ std_rfind [97;98;99] [0] NPOS = NPOS.
+Proof. vm_compute. split; reflexivity. Qed.
+Print Assumptions C11_rfind_char_pinned_refuted.
+
 (** Non-vacuity: an operation inside the domain on which the theorems apply. *)
 Example C11_nonvacuous :
   CapOk 10 /\ Inv 10 (fs10 [97;98;99]) /\ Bounded (ORepC 1 1 [120;121;122]) /\ CstrsOk (ORepC 1 1 [120;121;122]) /\
   std_step (abs (fs10 [97;98;99])) (abs (fs10 [])) (ORepC 1 1 [120;121;122]) = Some ([97;120;121;122;99], [], RNone) /\
-  std_step (abs (fs10 [97;98;99])) (abs (fs10 [])) (OCmppC 1 NPOS [98;99]) = Some ([97;98;99], [], RCmp Eq).
+  std_step (abs (fs10 [97;98;99])) (abs (fs10 [])) (OCmppC 1 NPOS [98;99]) = Some ([97;98;99], [], RCmp Eq) /\
+  FindOk (fs10 [97;98;99;98]) (fs10 []) (OFind FLNO (FS [98]) NPOS) /\
+  std_step (abs (fs10 [97;98;99;98])) (abs (fs10 [])) (OFind FLNO (FS [98]) NPOS) = Some ([97;98;99;98], [], RSize 2).
 Proof.
   split; [split; [vm_compute; discriminate|vm_compute; reflexivity]|].
   split; [repeat split; vm_compute; try reflexivity; discriminate|].
   split; [repeat constructor; vm_compute; reflexivity|].
   split; [repeat constructor; vm_compute; reflexivity|].
-  split; vm_compute; reflexivity.
+  split; [vm_compute; reflexivity|]. split; [vm_compute; reflexivity|].
+  split; [split; vm_compute; reflexivity|]. vm_compute. reflexivity.
 Qed.
